@@ -172,6 +172,15 @@ public:
           typename std::allocator_traits<Alloc2>::propagate_on_container_move_assignment::type
       >::type;
 
+      // copies a view of this image type with the given allocator; unlike the public view
+      // constructor it does not require the element type to model a pixel
+      struct copy_view_tag {};
+      image(view_t const& v, std::size_t alignment, Alloc const& alloc_in, copy_view_tag)
+          : _memory(nullptr), _align_in_bytes(alignment), _alloc(alloc_in), _allocated_bytes(0)
+      {
+          allocate_and_copy(v.dimensions(), v);
+      }
+
       static void exchange_memory(image& lhs, image& rhs)
       {
           lhs._memory = boost::exchange(rhs._memory, nullptr);
@@ -200,7 +209,7 @@ public:
               {
                   // copy with our allocator first (may throw, nothing is changed yet),
                   // then release our old storage and adopt the copy
-                  image tmp(img._view, _align_in_bytes, _alloc);
+                  image tmp(img._view, _align_in_bytes, _alloc, copy_view_tag{});
                   destruct_pixels(_view);
                   this->deallocate();
                   exchange_memory(*this, tmp);
